@@ -1059,7 +1059,7 @@ func numLabel(n int) string {
 
 func TestRewrite(t *testing.T) {
 	evid.Check(t, "Rewrite", 6000, func(rt *rapid.T) {
-		s, _ := ps.GenSchema(rt, ps.GenOpts{StringKey: true, MidNums: c19Mid, BigNums: c19Big})
+		s, _ := ps.GenSchema(rt, ps.GenOpts{StringKey: true, Unexp: true, MidNums: c19Mid, BigNums: c19Big})
 		b, err := ps.Build(&s)
 		if err != nil {
 			rt.Fatalf("harness: %v", err)
@@ -1146,6 +1146,16 @@ func TestRewrite(t *testing.T) {
 				}
 			}
 			evid.Label("mode." + c.Mode)
+			for i := range s.Msgs {
+				if len(s.Msgs[i].Pad) != 0 {
+					if s.Msgs[i].Tagged {
+						evid.Label("type.unexported-fields(tagged message)")
+					} else {
+						evid.Label("type.unexported-fields(untagged message)")
+					}
+					break
+				}
+			}
 			lab := func(cond bool, name string) {
 				if cond {
 					evid.Label(name)
